@@ -69,7 +69,8 @@ EXPECT_PROBES = ["decl_before_reg", "reg_before_decl", "chained_register",
                  "quit_before_up", "quit_after_up", "quit_twice",
                  "quit_retry_while_starting", "quit_foreign_thread",
                  "reregister", "empty_deps", "dup_deps", "redeclared",
-                 "listen_args", "falsy_component"]
+                 "listen_args", "falsy_component",
+                 "argument_mutated_after_declaration"]
 
 # known-finding ids (tolerated only when listed as open in
 # /verif/known_findings.json, each at exactly the signature described)
@@ -147,6 +148,8 @@ def gen_plan(seed, tier):
         r.shuffle(deps)
       cbk = r.wpick([(6, "func"), (4, "method"), (1, "partial")])
       spec = {"kind": "cwr", "deps": deps, "form": form, "cb": cbk,
+              # what the caller does to its (mutable) argument afterwards
+              "after": r.wpick([(4, ""), (1, "append"), (1, "clear")]),
               "named": r.chance(0.5 if cbk != "partial" else 0.6),
               "args": r.chance(0.3), "fail": fail, "chain": chain}
     chained.update(spec["chain"])
@@ -811,6 +814,14 @@ class Harness(object):
                   "call_when_ready(cb, ()) names no component but the "
                   "callback did not run")
       return
+    if sp.get("after") and isinstance(arg, (list, set)) and form != "default":
+      # the caller goes on using its container: the declaration must not
+      # follow it
+      self.probe("argument_mutated_after_declaration")
+      if sp["after"] == "append":
+        (arg.append if isinstance(arg, list) else arg.add)("never_registered")
+      else:
+        arg.clear()
     self.invariants("call_when_ready")
 
   def _decl_ltd(self, w, sp):
